@@ -5,7 +5,8 @@ really produced) and by correspondence checks that compare graph skeletons.
 
     graph_lit(graph_proto)            -> Coq term of type `graph`
     function_lit(function_proto)      -> Coq term of type `graph` (inputs, no initializers)
-    model_imports_lit(model_proto)    -> Coq `list string` of imported domains
+    imports_lit(opset_imports)        -> Coq `list string` of imported domains
+    model_funs_lit(model_proto)       -> Coq `list (list string * graph)`: imports and body of every model-local function
     wf_eval_body(named_terms)         -> Coq text evaluating wf_graphb on each term; parse with parse_bool_list
 """
 from __future__ import annotations
@@ -90,6 +91,11 @@ def function_lit(f: onnx.FunctionProto) -> str:
 
 def imports_lit(opset_imports) -> str:
     return clist([("" if o.domain == "ai.onnx" else o.domain) for o in opset_imports], cstr)
+
+
+def model_funs_lit(m: onnx.ModelProto) -> str:
+    """The model-local functions as a Coq `list mfun` (OV.Graph.ModelImports): (opset imports of the function, its body)."""
+    return clist([f"({imports_lit(f.opset_import)}, {function_lit(f)})" for f in m.functions])
 
 
 REQUIRES = ["OV.Graph.Syntax", "OV.Graph.Wf"]
